@@ -1606,6 +1606,419 @@ static int main_proc(bsx::Args &a) {
   return 0;
 }
 
+// ====================================================================== family "tobj"
+// Operation histories on ONE CptTable object.  Every other family uses a table object for exactly one kind of call
+// (whole table, OR row by row, OR two chunks); what a call leaves behind IN THE OBJECT (the selection of its member
+// dataspace, its dataset handle) can only show when calls of different kinds follow each other on the same object.
+//   side w: the table comes from CheckpointWriter::openTable<StaticSite>("t",N) on a CREATE file (rows not yet written)
+//   side m: a file holding a completely written N-row table is opened MODIFY, the table comes from CheckpointReader::openTable
+//   side r: the same through a READ handle (every write must be rejected, the file bytes must not change)
+//   WV  table.write(vector of N rows)          RV  table.read(vector of N rows)
+//   WR:k  table.writeToRow(&row,k)             RR:k  table.readFromRow(&row,k)
+//   WC:s:e  table.write(buf,s,e)               RC:s:e  table.read(buf,s,e)          (buf = rows s..e-1, 0 <= s < e <= N)
+//   WE:s:e / RE:s:e  the same calls with e > N: the range leaves the table, the call must be rejected (error) and change nothing
+// Every write carries rows that occur nowhere else in the history (content = function of step and row index).
+struct TOp { char dir; char shape; int s, e; };
+static std::string topstr(const TOp &o) {
+  std::string s; s += o.dir; s += o.shape;
+  if (o.shape == 'V') return s;
+  if (o.shape == 'R') return s + ":" + std::to_string(o.s);
+  return s + ":" + std::to_string(o.s) + ":" + std::to_string(o.e);
+}
+static std::string thiststr(char side, int N, const std::vector<TOp> &ops) {
+  std::string s = std::string("fam=tobj;side=") + side + ";n=" + std::to_string(N) + ";ops=";
+  for (size_t k = 0; k < ops.size(); k++) s += (k ? "," : "") + topstr(ops[k]);
+  return s;
+}
+static bool parse_thist(const std::string &cas, char &side, int &N, std::vector<TOp> &ops) {
+  auto m = bsx::kvs(cas);
+  if (m["side"].size() != 1 || std::string("wmr").find(m["side"][0]) == std::string::npos) return false;
+  side = m["side"][0];
+  N = atoi(m["n"].c_str());
+  if (N < 1 || N > 64) return false;
+  ops.clear();
+  if (m["ops"].empty()) return true;
+  for (auto &t : bsx::split(m["ops"], ',')) {
+    auto f = bsx::split(t, ':');
+    if (f[0].size() != 2 || (f[0][0] != 'W' && f[0][0] != 'R')) return false;
+    TOp o{f[0][0], f[0][1], 0, N};
+    if (o.shape == 'V') { if (f.size() != 1) return false; }
+    else if (o.shape == 'R') { if (f.size() != 2) return false; o.s = atoi(f[1].c_str()); o.e = o.s + 1; if (o.s < 0 || o.s >= N) return false; }
+    else if (o.shape == 'C' || o.shape == 'E') {
+      if (f.size() != 3) return false;
+      o.s = atoi(f[1].c_str()); o.e = atoi(f[2].c_str());
+      if (o.s < 0 || o.e <= o.s || o.e > N + 64) return false;
+      if ((o.shape == 'C') != (o.e <= N)) return false;
+    } else return false;
+    ops.push_back(o);
+  }
+  return true;
+}
+static Row tobj_row(int st, int k) {  // st = -1: the content the prepared file of sides m,r starts with
+  std::string el = st < 0 ? "p" + std::to_string(k) : "s" + std::to_string(st) + "r" + std::to_string(k);
+  return mkrow(1000L * (st + 1) + k + 1, el, 0.5 * (st + 1) + double(k) + 0.125);
+}
+static void row_to_data(const Row &r, StaticSite::data &d) {  // d.element points into r
+  d.id = r.id; d.element = const_cast<char *>(r.el.c_str());
+  d.posX = r.pos[0]; d.posY = r.pos[1]; d.posZ = r.pos[2]; d.rank = r.rank;
+  d.Q00 = r.q[0]; d.Q11c = r.q[1]; d.Q11s = r.q[2]; d.Q10 = r.q[3]; d.Q20 = r.q[4]; d.Q21c = r.q[5]; d.Q21s = r.q[6]; d.Q22c = r.q[7]; d.Q22s = r.q[8];
+}
+static Row data_to_row(const StaticSite::data &d) {
+  Row q; q.id = d.id; q.el = d.element ? std::string(d.element) : std::string("<null>");
+  q.pos[0] = d.posX; q.pos[1] = d.posY; q.pos[2] = d.posZ; q.rank = d.rank;
+  q.q[0] = d.Q00; q.q[1] = d.Q11c; q.q[2] = d.Q11s; q.q[3] = d.Q10; q.q[4] = d.Q20; q.q[5] = d.Q21c; q.q[6] = d.Q21s; q.q[7] = d.Q22c; q.q[8] = d.Q22s;
+  return q;
+}
+static StaticSite::data tobj_sentinel() {  // what a target entry holds before a read; occurs in no stored row
+  StaticSite::data d;
+  d.id = -999; d.element = nullptr; d.posX = d.posY = d.posZ = -999.25; d.rank = -999;
+  d.Q00 = d.Q11c = d.Q11s = d.Q10 = d.Q20 = d.Q21c = d.Q21s = d.Q22c = d.Q22s = -999.25;
+  return d;
+}
+static std::string canon_row1(const Row &r) { return canon_rows(std::vector<Row>{r}).substr(7); }
+static bool tobj_whole(int N, const TOp &o) { return o.shape != 'E' && o.e - o.s == N; }  // N == 1: writeToRow(0) IS the whole table
+static std::string tobj_opclass(int N, const TOp &o) {
+  std::string d = o.dir == 'W' ? "write" : "read";
+  if (o.shape == 'E') return "outofrange-" + d;
+  return (tobj_whole(N, o) ? "whole-" : "subrange-") + d;
+}
+// what the object went through before op #step: a proper sub-range call / only rejected out-of-range calls / only whole-table calls / nothing
+static std::string tobj_prior(int N, const std::vector<TOp> &ops, int step) {
+  bool sub = false, rej = false, whole = false;
+  for (int k = 0; k < step && k < (int)ops.size(); k++) {
+    if (ops[k].shape == 'E') rej = true;
+    else if (tobj_whole(N, ops[k])) whole = true;
+    else sub = true;
+  }
+  return sub ? "after-subrange" : (rej ? "after-rejected-range" : (whole ? "after-whole" : "first"));
+}
+// narrow class key from an explicit predicate on the history: class of the failing call + what preceded it on the same object
+static std::string tobj_key(char /*side*/, int N, const std::vector<TOp> &ops, int step, const std::string &sym) {
+  if (step < 0 || step >= (int)ops.size()) return "table-object-history-" + sym;
+  const TOp &op = ops[step];
+  std::string cls = tobj_opclass(N, op), prior = tobj_prior(N, ops, step);
+  if (sym == "accepted") return std::string("table-object-history-") + (op.shape == 'E' ? cls : "readonly-" + cls) + "-accepted-" + prior;
+  if (sym == "crash") return "table-object-history-crash-in-" + cls + "-" + prior;
+  if (sym == "final") return "table-object-history-final-content-differs-after-" + cls;
+  return "table-object-history-" + cls + "-" + prior;
+}
+static std::string tobj_fatal_key(char side, int N, const std::vector<TOp> &ops, int step) {
+  if (step >= 950) return "table-object-history-crash-in-final-read";
+  if (step == 900) return "table-object-history-crash-releasing-table";
+  if (step >= 0 && step < (int)ops.size()) return tobj_key(side, N, ops, step, "crash");
+  return "table-object-history-crash-in-setup";
+}
+
+static bsx::Outcome run_tobj(char side, int N, const std::vector<TOp> &ops, const std::string &file) {
+  bsx::Outcome o;
+  std::string cas = thiststr(side, N, ops);
+  auto failwith = [&](const std::string &key, const std::string &what) {
+    o.ok = false; o.key = key; o.what = what + "  [" + cas + "]";
+    ::remove(file.c_str());
+    return o;
+  };
+  H5::Exception::dontPrint();
+  ::remove(file.c_str());
+  std::vector<Row> model(N);   // the reference: a plain vector of rows
+  std::string prov(N, 'u');    // per row: u never written, i initial content, v/r/c last written by a whole-table / row / chunk call
+  const StaticSite::data SENT = tobj_sentinel();
+  const std::string sidetxt = side == 'w' ? "table from CheckpointWriter::openTable (CREATE file)"
+                                          : (side == 'm' ? "table from CheckpointReader::openTable (MODIFY file)" : "table from CheckpointReader::openTable (READ file)");
+  long n_reads = 0, n_writes = 0, n_rejected = 0, n_unwritten = 0;
+  // whole table through a FRESH table object of file handle f, compared with the model (never-written rows are not compared)
+  auto compare_file = [&](CheckpointFile &f, std::string &msg) -> bool {
+    std::vector<Row> got;
+    try {
+      CheckpointReader r = f.getReader("/");
+      CptTable t2 = r.openTable<StaticSite>("t");
+      std::vector<StaticSite::data> dv(t2.numRows(), SENT);
+      t2.read(dv);
+      for (auto &d : dv) { got.push_back(data_to_row(d)); if (d.element) free(d.element); }
+    } catch (const std::exception &e) { msg = std::string("reading the whole table through a fresh table object threw: ") + clip(e.what()); return false; }
+    catch (const H5::Exception &e) { msg = std::string("reading the whole table through a fresh table object threw H5::Exception: ") + clip(e.getDetailMsg()); return false; }
+    if ((int)got.size() != N) { msg = "the table has " + std::to_string(got.size()) + " rows, expected " + std::to_string(N); return false; }
+    std::string bad, first;
+    for (int k = 0; k < N; k++) {
+      if (prov[k] == 'u') continue;
+      if (canon_row1(got[k]) != canon_row1(model[k])) {
+        bad += (bad.empty() ? "" : ",") + std::to_string(k);
+        if (first.empty()) first = "row " + std::to_string(k) + " holds " + clip(canon_row1(got[k])) + " expected " + clip(canon_row1(model[k]));
+      }
+    }
+    if (bad.empty()) return true;
+    msg = "rows " + bad + " of " + std::to_string(N) + " differ from the reference: " + first;
+    return false;
+  };
+  std::string ro_snapshot;
+  try {
+    mark(-1);
+    if (side != 'w') {  // prepared file: all N rows written by the usual whole-table call through an object of its own
+      CheckpointFile f0(file, CheckpointAccessLevel::CREATE);
+      CheckpointWriter w0 = f0.getWriter("/");
+      CptTable t0 = w0.openTable<StaticSite>("t", N);
+      std::vector<StaticSite::data> dv(N);
+      for (int k = 0; k < N; k++) { model[k] = tobj_row(-1, k); prov[k] = 'i'; }
+      for (int k = 0; k < N; k++) row_to_data(model[k], dv[k]);
+      t0.write(dv);
+    }
+    if (side == 'r') ro_snapshot = slurp(file);
+    std::unique_ptr<CheckpointFile> h(new CheckpointFile(file, side == 'w' ? CheckpointAccessLevel::CREATE : (side == 'm' ? CheckpointAccessLevel::MODIFY : CheckpointAccessLevel::READ)));
+    std::unique_ptr<CptTable> T;  // THE object all ops of the history go through
+    if (side == 'w') { CheckpointWriter w = h->getWriter("/"); T.reset(new CptTable(w.openTable<StaticSite>("t", N))); }
+    else { CheckpointReader r = h->getReader("/"); T.reset(new CptTable(r.openTable<StaticSite>("t"))); }
+    if ((int)T->numRows() != N) return failwith("table-object-history-numrows-differs", sidetxt + ": numRows() = " + std::to_string(T->numRows()) + ", expected " + std::to_string(N));
+    for (size_t st = 0; st < ops.size(); st++) {
+      const TOp &op = ops[st];
+      mark((int)st);
+      const int s = op.s, e = op.e, l = e - s;
+      const bool oor = op.shape == 'E';
+      const std::string call = topstr(op) + " (" + tobj_opclass(N, op) + ", " + tobj_prior(N, ops, (int)st) + " call on this object)";
+      bool threw = false; std::string msg;
+      if (op.dir == 'W') {
+        std::vector<Row> nr(l);
+        std::vector<StaticSite::data> dv(l);
+        for (int k = 0; k < l; k++) { nr[k] = tobj_row((int)st, s + k); row_to_data(nr[k], dv[k]); }
+        try {
+          if (op.shape == 'V') T->write(dv);
+          else if (op.shape == 'R') T->writeToRow(&dv[0], (size_t)s);
+          else T->write(dv.data(), (size_t)s, (size_t)e);
+        } catch (const std::exception &ex) { threw = true; msg = ex.what(); }
+        catch (const H5::Exception &ex) { threw = true; msg = "H5::Exception " + ex.getDetailMsg(); }
+        n_writes++;
+        if (oor || side == 'r') {
+          if (!threw) return failwith(tobj_key(side, N, ops, (int)st, "accepted"), sidetxt + ": " + call + (oor ? ": rows [" + std::to_string(s) + "," + std::to_string(e) + ") of a " + std::to_string(N) + "-row table were written without an error"
+                                                                                                             : ": a write through a table of a READ file was not rejected"));
+          n_rejected++;
+        } else if (threw) {
+          // side m: a table obtained from a READER may refuse to write (allowed, nothing must change); the writer's own table must accept
+          if (side == 'w') return failwith(tobj_key(side, N, ops, (int)st, ""), sidetxt + ": " + call + " was rejected: " + clip(msg));
+          n_rejected++;
+        } else {
+          for (int k = 0; k < l; k++) { model[s + k] = nr[k]; prov[s + k] = op.shape == 'V' ? 'v' : (op.shape == 'R' ? 'r' : 'c'); }
+        }
+        // the effect of this call, seen by a fresh table object on the same file handle
+        std::string m2;
+        if (!compare_file(*h, m2)) return failwith(tobj_key(side, N, ops, (int)st, ""), sidetxt + ": after " + call + (threw ? " (rejected)" : "") + " " + m2);
+      } else {
+        const int TN = std::max(N, e);
+        std::vector<StaticSite::data> tv(TN, SENT);
+        if (op.shape == 'V') tv.resize(N);
+        bool unwritten = false;
+        for (int k = s; k < e && k < N; k++) if (prov[k] == 'u') unwritten = true;
+        try {
+          if (op.shape == 'V') T->read(tv);
+          else if (op.shape == 'R') T->readFromRow(&tv[s], (size_t)s);
+          else T->read(&tv[s], (size_t)s, (size_t)e);
+        } catch (const std::exception &ex) { threw = true; msg = ex.what(); }
+        catch (const H5::Exception &ex) { threw = true; msg = "H5::Exception " + ex.getDetailMsg(); }
+        n_reads++;
+        std::vector<Row> got;
+        std::vector<bool> touched;
+        for (auto &d : tv) { touched.push_back(memcmp(&d, &SENT, sizeof d) != 0); got.push_back(data_to_row(d)); if (d.element) free(d.element); }
+        if (oor) {
+          if (!threw) return failwith(tobj_key(side, N, ops, (int)st, "accepted"), sidetxt + ": " + call + ": rows [" + std::to_string(s) + "," + std::to_string(e) + ") of a " + std::to_string(N) + "-row table were read without an error");
+          n_rejected++;
+          continue;
+        }
+        if (threw) {
+          if (unwritten) { n_unwritten++; continue; }  // allowed: rows that were never written
+          return failwith(tobj_key(side, N, ops, (int)st, ""), sidetxt + ": " + call + " threw although rows [" + std::to_string(s) + "," + std::to_string(e) + ") are stored: " + clip(msg));
+        }
+        std::string bad, first, spill;
+        for (int k = 0; k < (int)got.size(); k++) {
+          if (k >= s && k < e) {
+            if (prov[k] == 'u') { n_unwritten++; continue; }
+            if (canon_row1(got[k]) != canon_row1(model[k])) {
+              bad += (bad.empty() ? "" : ",") + std::to_string(k);
+              if (first.empty()) first = "entry " + std::to_string(k) + (touched[k] ? " holds " + clip(canon_row1(got[k])) : std::string(" was not filled in")) + ", stored row is " + clip(canon_row1(model[k]));
+            }
+          } else if (touched[k]) spill += (spill.empty() ? "" : ",") + std::to_string(k);
+        }
+        if (!bad.empty() || !spill.empty())
+          return failwith(tobj_key(side, N, ops, (int)st, ""), sidetxt + ": " + call + " into a target of " + std::to_string(got.size()) + " entries: " +
+                                                                   (bad.empty() ? "" : "entries " + bad + " differ from the stored rows: " + first + "; ") +
+                                                                   (spill.empty() ? "" : "entries " + spill + " outside [" + std::to_string(s) + "," + std::to_string(e) + ") were changed"));
+      }
+    }
+    mark(900);
+    T.reset();
+    h.reset();
+    if (side == 'r' && slurp(file) != ro_snapshot) return failwith("table-object-history-readonly-file-bytes-changed", sidetxt + ": the file bytes changed while it was open read-only");
+    mark(950);
+    {
+      CheckpointFile fresh(file, CheckpointAccessLevel::READ);
+      std::string m2;
+      if (!compare_file(fresh, m2))
+        return failwith(ops.empty() ? std::string("table-object-history-initial-content-differs") : tobj_key(side, N, ops, (int)ops.size() - 1, "final"),
+                        sidetxt + ": fresh READ handle after the table and its file were released: " + m2);
+    }
+  } catch (const std::exception &e) {
+    return failwith("table-object-history-unexpected-exception", std::string("exception outside any checked call: ") + e.what());
+  } catch (const H5::Exception &e) {
+    return failwith("table-object-history-unexpected-exception", std::string("H5::Exception outside any checked call: ") + e.getDetailMsg());
+  }
+  ::remove(file.c_str());
+  // state = content provenance + the object's last call (its range is what the member dataspace was last set to)
+  o.extra = std::string("tobj:") + side + std::to_string(N) + "|" + prov + "|last=" + (ops.empty() ? std::string("-") : topstr(ops.back()));
+  o.what = "rd=" + std::to_string(n_reads) + ";wr=" + std::to_string(n_writes) + ";rej=" + std::to_string(n_rejected) + ";unw=" + std::to_string(n_unwritten);
+  o.cls = bsx::fnv(o.extra);
+  return o;
+}
+
+// the op alphabet of one (side, N): simplest first
+static std::vector<TOp> tobj_alphabet(char side, int N) {
+  std::vector<int> rows;
+  if (N <= 3) for (int k = 0; k < N; k++) rows.push_back(k);
+  else { rows = {0, N / 3, N - 1}; }
+  std::vector<std::pair<int, int>> chunks;  // proper chunks of >= 2 rows (one-row chunks are the row calls, [0,N) is the whole-table call)
+  if (N == 3) chunks = {{0, 2}, {1, 3}};
+  else if (N >= 4) chunks = {{0, N - 2}, {N - 2, N}, {1, N / 2}};
+  const int es = std::max(0, N - 2), ee = N + 3;  // straddles the end of the table
+  std::vector<TOp> r;
+  r.push_back({'W', 'V', 0, N});
+  r.push_back({'R', 'V', 0, N});
+  if (side == 'r') {  // every write is rejected alike: one whole-table, one row, one out-of-range attempt
+    r.push_back({'W', 'R', N - 1, N});
+    for (int k : rows) r.push_back({'R', 'R', k, k + 1});
+    for (auto &c : chunks) r.push_back({'R', 'C', c.first, c.second});
+  } else {
+    for (int k : rows) { r.push_back({'W', 'R', k, k + 1}); r.push_back({'R', 'R', k, k + 1}); }
+    for (auto &c : chunks) { r.push_back({'W', 'C', c.first, c.second}); r.push_back({'R', 'C', c.first, c.second}); }
+  }
+  r.push_back({'R', 'E', es, ee});
+  r.push_back({'W', 'E', es, ee});
+  return r;
+}
+
+struct TCand { char side; int N; std::vector<TOp> ops; };
+static int main_tobj(bsx::Args &a) {
+  if (a.has_case) {
+    char side; int N; std::vector<TOp> ops;
+    if (!parse_thist(a.cas, side, N, ops)) { fprintf(stderr, "bad case string\n"); return 2; }
+    bsx::Outcome o;
+    *g_step = -2;
+    bsx::contained(0, 1, [&](long long) { return run_tobj(side, N, ops, "case.h5"); }, [&](long long, const bsx::Outcome &r) { o = r; });
+    ::remove("case.h5");
+    if (o.ok) { printf("case holds\n"); return 0; }
+    if (o.key == "fatal") { o.key = tobj_fatal_key(side, N, ops, *g_step); o.what += " at step marker " + std::to_string(*g_step); }
+    printf("case FAILS: key=%s %s\n", o.key.c_str(), o.what.c_str());
+    return 3;
+  }
+  // libhdf5 allocates (and, with its default free-list limits, gives back) ~1 MiB conversion and background buffers in every
+  // table read/write; under ASan each of them is an mmap/munmap + page faults (2-3 ms per call).  Letting libhdf5 keep its
+  // freed blocks changes nothing the code under test can see and makes a history 4-5x cheaper.
+  H5set_free_list_limits(-1, -1, -1, -1, -1, -1);
+  if (a.kv.count("bench")) {  // timing aid: --family tableobj --bench N --hist "<case>"
+    char side; int N; std::vector<TOp> ops;
+    if (!parse_thist(a.kv["hist"], side, N, ops)) { fprintf(stderr, "bad case string\n"); return 2; }
+    int n = atoi(a.kv["bench"].c_str());
+    auto t0 = std::chrono::steady_clock::now();
+    for (int k = 0; k < n; k++) { auto o = run_tobj(side, N, ops, "bench.h5"); if (!o.ok) { printf("fails %s\n", o.what.c_str()); break; } }
+    printf("%.3f ms wall, %.3f ms cpu per history\n", 1e3 * std::chrono::duration<double>(std::chrono::steady_clock::now() - t0).count() / n, 1e3 * double(clock()) / CLOCKS_PER_SEC / n);
+    return 0;
+  }
+  bsx::Report R;
+  R.property = "C17"; R.part = "tob"; R.tier = a.tier;
+  bool thorough = a.tier == "thorough";
+  const int maxdepth = thorough ? 4 : 3;
+  const std::vector<int> NS = {1, 2, 3, 6};
+  const std::string SIDES = "wmr";
+  R.rule = "ALL operation histories of length <= " + std::to_string(maxdepth) + " on ONE CptTable<StaticSite> object (own HDF5 file per history, forked children, ASan/UBSan), for table sizes N in {1,2,3,6} and three "
+           "kinds of object: w = from CheckpointWriter::openTable(name,N) on a CREATE file (rows not yet written), m = from CheckpointReader::openTable on a MODIFY handle of a file that holds the N rows, "
+           "r = the same on a READ handle. Alphabet: write(vector of N rows), read(vector of N rows), writeToRow(k), readFromRow(k) (every k for N <= 3; k in {0,2,5} for N = 6), chunk write(buf,s,e) / read(buf,s,e) "
+           "([0,2),[1,3) for N = 3; [0,4),[4,6),[1,3) for N = 6), and an out-of-range read / write [N-2,N+3) that must be rejected; on r the writes are one whole-table, one row and one out-of-range attempt "
+           "(all must be rejected). 6/8/14/16 ops per N on w and m, 6/7/10/11 on r; no state merging: every sequence is replayed. Every write carries rows that occur nowhere else in the history. "
+           "Oracle: reference model = a plain vector of rows updated per accepted write; after every read the entries of the target inside the range equal the model rows bit for bit and every entry outside "
+           "it still holds the sentinel it was filled with; after every write (accepted or rejected) a fresh table object on the same file handle reads the whole table = the model; out-of-range calls "
+           "and writes on r must throw and change nothing; at the end the table and the file are released and a FRESH read-only handle reads the whole table = the model (r: file bytes unchanged). "
+           "Allowed: a write through a reader's table on m may be refused (then nothing changes); rows of w that were never written are not compared, a read that covers such rows may throw. "
+           "Histories are extended only from passing histories, so a failure is attributed to the last call; key = class of that call (whole/subrange/outofrange x read/write) + what the object saw before "
+           "(a proper sub-range call / only rejected ranges / only whole-table calls / nothing). state (counted, not merged) = kind of object, N, per-row provenance, the object's last call";
+
+  std::map<std::string, std::vector<TOp>> ALPH;
+  for (char sd : SIDES) for (int N : NS) ALPH[std::string(1, sd) + std::to_string(N)] = tobj_alphabet(sd, N);
+  long long states = 0, transitions = 0;
+  std::set<std::string> seen;
+  std::vector<TCand> frontier;
+  auto count_aux = [&](const std::string &aux) {
+    auto m = bsx::kvs(aux);
+    R.counters["read_calls_checked"] += atoll(m["rd"].c_str());
+    R.counters["write_calls_checked"] += atoll(m["wr"].c_str());
+    R.counters["calls_rejected_as_required_or_allowed"] += atoll(m["rej"].c_str());
+    R.counters["reads_touching_never_written_rows_not_compared"] += atoll(m["unw"].c_str());
+  };
+  auto evaluate = [&](const std::vector<TCand> &cand, int depth, bool count, std::vector<TCand> &next) {
+    const long long n = (long long)cand.size(), BATCH = 256;
+    for (long long pos = 0; pos < n; pos += BATCH) {
+      long long hi = std::min(n, pos + BATCH);
+      bsx::contained(
+          pos, hi,
+          [&](long long i) {
+            if (!g_silenced) { g_silenced = true; int fd = open("/dev/null", O_WRONLY); if (fd >= 0) { dup2(fd, 2); close(fd); } }
+            *g_step = -2;
+            return run_tobj(cand[i].side, cand[i].N, cand[i].ops, "t" + std::to_string(depth) + "_" + std::to_string(i) + ".h5");
+          },
+          [&](long long i, const bsx::Outcome &res) {
+            bsx::Outcome o = res;
+            const TCand &c = cand[i];
+            if (count) { R.eval(); transitions++; }
+            std::string cas = thiststr(c.side, c.N, c.ops);
+            if (!o.ok) {
+              ::remove(("t" + std::to_string(depth) + "_" + std::to_string(i) + ".h5").c_str());
+              if (o.key == "fatal") { o.key = tobj_fatal_key(c.side, c.N, c.ops, *g_step); o.what += " at step marker " + std::to_string(*g_step) + "  [" + cas + "]"; if (count) R.counters["children_killed_by_sanitizer_or_signal"]++; }
+              if (count) { R.fail(o.key, o.what, cas); R.counters["failing_histories"]++; }
+              return;
+            }
+            next.push_back(c);
+            if (!count) return;
+            count_aux(o.what);
+            R.counters[std::string("histories_side_") + c.side]++;
+            // the mixed sequences no other family has: a whole-table call after a proper sub-range call / after a rejected range, on the same object
+            bool sub = false, rej = false, ws = false, wr = false;
+            for (auto &op : c.ops) {
+              if (tobj_whole(c.N, op)) { if (sub) ws = true; if (rej) wr = true; }
+              else if (op.shape == 'E') rej = true;
+              else sub = true;
+            }
+            if (ws) R.counters["histories_with_whole_table_call_after_subrange_call"]++;
+            if (wr) R.counters["histories_with_whole_table_call_after_rejected_range"]++;
+            if (seen.insert(o.extra).second) { states++; R.cls(o.cls); if ((states % 41) == 9) R.sample(cas + " -> state " + o.extra); }
+          },
+          60);
+    }
+    if (count) R.counters["depth" + std::to_string(depth) + "_histories"] += n;
+  };
+  {  // depth 0: every shard evaluates it, shard 0 counts it
+    std::vector<TCand> c0;
+    for (char sd : SIDES) for (int N : NS) c0.push_back({sd, N, {}});
+    evaluate(c0, 0, a.shard == 0, frontier);
+  }
+  for (int depth = 1; depth <= maxdepth && !frontier.empty(); depth++) {
+    std::vector<TCand> cand, next;
+    for (auto &c : frontier)
+      for (auto &op : ALPH[std::string(1, c.side) + std::to_string(c.N)]) { TCand n = c; n.ops.push_back(op); cand.push_back(n); }
+    // sharding by the hash of kind of object, N and the first two calls (depth 1 is evaluated by every shard, counted by shard 0)
+    if (depth >= 2) {
+      std::vector<TCand> mine;
+      for (auto &c : cand) if (a.mine((long long)(bsx::fnv(std::string(1, c.side) + std::to_string(c.N) + topstr(c.ops[0]) + "," + topstr(c.ops[1])) % 1000003ull))) mine.push_back(c);
+      cand.swap(mine);
+    }
+    evaluate(cand, depth, depth >= 2 || a.shard == 0, next);
+    frontier.swap(next);
+  }
+  R.states = states; R.transitions = transitions; R.traces = transitions;
+  R.assumptions = {
+      "CptTable::write/read(buffer,start,end): buffer points at row `start`; read(vector)/write(vector) are called with a vector of numRows() entries, as every xtp caller does",
+      "a range that leaves the table (end > numRows) must be reported as an error and change neither the file nor what later calls on the object do; empty and reversed ranges are outside the alphabet",
+      "a write through a table object obtained from a CheckpointReader on a MODIFY file may be refused (model unchanged); if it does not throw the rows must be stored",
+      "rows of a freshly created table that were never written have no specified content: they are not compared and a read covering them may throw",
+      "no state merging in this family: what a call leaves behind in the object is exactly the hidden state under test; the states counted are the abstraction (object kind, N, per-row provenance, last call)",
+      "libhdf5's internal free lists are unlimited in this family (H5set_free_list_limits(-1,...)): recycles its 1 MiB conversion buffers instead of mmap/munmap under ASan; no effect on stored or returned data",
+      "states are de-duplicated per shard; distinct_nontrivial is exact"};
+  if (!R.write(a.out)) { fprintf(stderr, "cannot write %s\n", a.out.c_str()); return 2; }
+  return 0;
+}
+
 int main(int argc, char **argv) {
   build_alphabet();
   build_sized();
@@ -1615,6 +2028,7 @@ int main(int argc, char **argv) {
   if (g_step == MAP_FAILED) { perror("mmap"); return 2; }
   if (a.kv["family"] == "proc" || (a.has_case && a.cas.rfind("fam=proc", 0) == 0)) return main_proc(a);
   if (a.kv["family"] == "overlap" || (a.has_case && a.cas.rfind("fam=ovl", 0) == 0)) return main_overlap(a);
+  if (a.kv["family"] == "tableobj" || (a.has_case && a.cas.rfind("fam=tobj", 0) == 0)) return main_tobj(a);
   if (a.kv.count("bench")) {  // timing aid: --bench N --hist "<case>"
     Cand c; parse_hist(a.kv["hist"], c.init, c.ops);
     int n = atoi(a.kv["bench"].c_str());
